@@ -576,3 +576,350 @@ Proof.
   { intros v Hin. apply (rejected_far sl su); auto. }
   pose proof (ssd_gt _ _ _ Hn Hall) as Hgt. rewrite (varQ_len _ Hn) in Hgt. lra.
 Qed.
+
+(* cenfunc = median.  Odd length: the median is a value of the sample.  Even length: the
+   lower middle value a is kept because the population variance is at least ((b - a)/2)^2,
+   b the upper middle value (pair the i-th smallest with the (n/2+i)-th smallest:
+   (x-m)^2 + (y-m)^2 >= (y-x)^2/2 >= (b-a)^2/2). *)
+Lemma qinsert_sorted a l : StronglySorted Qle l -> StronglySorted Qle (qinsert a l).
+Proof.
+  induction 1 as [|b r Hr IH Hb]; cbn [qinsert].
+  - constructor; constructor.
+  - destruct (Qle_bool a b) eqn:E.
+    + apply Qle_bool_iff in E. constructor; [constructor; assumption|]. constructor; [assumption|].
+      eapply Forall_impl; [|exact Hb]. intros y Hy. cbn. eapply Qle_trans; eauto.
+    + apply Qle_bool_false in E. constructor; [exact IH|].
+      apply Forall_forall. intros y Hy. apply qinsert_in in Hy as [->|Hy]; [apply Qlt_le_weak; exact E|].
+      rewrite Forall_forall in Hb. now apply Hb.
+Qed.
+Lemma qsort_sorted l : StronglySorted Qle (qsort l).
+Proof. induction l as [|a l IH]; [constructor|]. rewrite qsort_cons. now apply qinsert_sorted. Qed.
+
+Lemma ssd_qinsert m a l : ssd m (qinsert a l) == (a - m) * (a - m) + ssd m l.
+Proof.
+  induction l as [|b l IH]; cbn [qinsert]; [apply ssd_cons|].
+  destruct (Qle_bool a b); [apply ssd_cons|]. rewrite !ssd_cons, IH. ring.
+Qed.
+Lemma ssd_qsort m l : ssd m (qsort l) == ssd m l.
+Proof.
+  induction l as [|a l IH]; [reflexivity|]. rewrite qsort_cons, ssd_qinsert, ssd_cons, IH. reflexivity.
+Qed.
+Lemma ssd_app m l1 l2 : ssd m (l1 ++ l2) == ssd m l1 + ssd m l2.
+Proof.
+  induction l1 as [|x l1 IH]; cbn [app].
+  - unfold ssd at 2. cbn [fold_right]. ring.
+  - rewrite !ssd_cons, IH. ring.
+Qed.
+Lemma lenQ_app (l1 l2 : list Q) : lenQ (l1 ++ l2) == lenQ l1 + lenQ l2.
+Proof. unfold lenQ. rewrite app_length, Nat2Z.inj_add, inject_Z_plus. reflexivity. Qed.
+
+Lemma SS_app_cross L U : StronglySorted Qle (L ++ U) -> forall x y, In x L -> In y U -> x <= y.
+Proof.
+  induction L as [|x0 L IH]; cbn [app]; intros H x y Hx Hy; [destruct Hx|].
+  inversion H as [|? ? Hs Hf]; subst. destruct Hx as [<-|Hx].
+  - rewrite Forall_forall in Hf. apply Hf, in_or_app. now right.
+  - now apply IH.
+Qed.
+Lemma SS_app_r L U : StronglySorted Qle (L ++ U) -> StronglySorted Qle U.
+Proof.
+  induction L as [|x0 L IH]; cbn [app]; intros H; [exact H|].
+  inversion H; subst. now apply IH.
+Qed.
+Lemma SS_app_l L U : StronglySorted Qle (L ++ U) -> StronglySorted Qle L.
+Proof.
+  induction L as [|x0 L IH]; cbn [app]; intros H; [constructor|].
+  inversion H as [|? ? Hs Hf]; subst. constructor; [now apply IH|].
+  apply Forall_app in Hf. tauto.
+Qed.
+Lemma last_in (l : list Q) d : l <> [] -> In (last l d) l.
+Proof.
+  induction l as [|x l IH]; [congruence|]. intros _. destruct l as [|y l]; [now left|].
+  right. apply IH. discriminate.
+Qed.
+Lemma SS_le_last L : StronglySorted Qle L -> forall x, In x L -> x <= last L 0.
+Proof.
+  induction 1 as [|x0 r Hr IH Hf]; intros x Hx; [destruct Hx|].
+  destruct r as [|y r]; [destruct Hx as [<-|[]]; apply Qle_refl|].
+  change (last (x0 :: y :: r) 0) with (last (y :: r) 0). destruct Hx as [<-|Hx].
+  - rewrite Forall_forall in Hf. apply Hf, last_in. discriminate.
+  - now apply IH.
+Qed.
+Lemma SS_hd_le U : StronglySorted Qle U -> forall y, In y U -> hd 0 U <= y.
+Proof.
+  destruct 1 as [|x0 r Hr Hf]; intros y Hy; [destruct Hy|]. cbn [hd].
+  destruct Hy as [<-|Hy]; [apply Qle_refl|]. rewrite Forall_forall in Hf. now apply Hf.
+Qed.
+Lemma hd_skipn k : forall (s : list Q) d, hd d (skipn k s) = nth k s d.
+Proof. induction k as [|k IH]; intros [|x s] d; cbn [skipn hd nth]; auto. Qed.
+Lemma last_firstn k : forall (s : list Q) d, (k < length s)%nat -> last (firstn (S k) s) d = nth k s d.
+Proof.
+  induction k as [|k IH]; intros [|x s] d H; cbn [length] in H; try lia.
+  - reflexivity.
+  - destruct s as [|y s]; [cbn [length] in H; lia|].
+    change (firstn (S (S k)) (x :: y :: s)) with (x :: y :: firstn k s).
+    change (last (x :: y :: firstn k s) d) with (last (firstn (S k) (y :: s)) d).
+    cbn [nth]. apply IH. cbn [length] in *. lia.
+Qed.
+
+Lemma sq_mono u w : 0 <= u -> u <= w -> u * u <= w * w.
+Proof. intros. nra. Qed.
+
+Lemma pair_ssd m a b : a <= b -> forall L U, length L = length U ->
+  (forall x, In x L -> x <= a) -> (forall y, In y U -> b <= y) ->
+  lenQ L * ((b - a) * (b - a)) <= 2 * (ssd m L + ssd m U).
+Proof.
+  intros Hab. induction L as [|x L IH]; intros [|y U] Hlen HL HU; try (cbn in Hlen; discriminate Hlen).
+  - assert (E : lenQ (@nil Q) == 0) by reflexivity. assert (E2 : ssd m [] == 0) by reflexivity.
+    rewrite E, E2. lra.
+  - rewrite lenQ_cons, !ssd_cons.
+    assert (IH' : lenQ L * ((b - a) * (b - a)) <= 2 * (ssd m L + ssd m U)).
+    { apply IH; [cbn in Hlen; lia| |]; intros z Hz; [apply HL|apply HU]; now right. }
+    pose proof (HL x (or_introl eq_refl)) as Hx. pose proof (HU y (or_introl eq_refl)) as Hy.
+    assert (H1 : (b - a) * (b - a) <= (y - x) * (y - x)) by (apply sq_mono; lra).
+    assert (H2 : 0 <= ((x - m) + (y - m)) * ((x - m) + (y - m))) by (generalize ((x - m) + (y - m)); intros t; nra).
+    assert (H3 : (y - x) * (y - x) <= 2 * ((x - m) * (x - m) + (y - m) * (y - m))).
+    { setoid_replace (2 * ((x - m) * (x - m) + (y - m) * (y - m))) with
+        ((y - x) * (y - x) + ((x - m) + (y - m)) * ((x - m) + (y - m))) by ring. lra. }
+    set (D := (b - a) * (b - a)) in *. set (A := (x - m) * (x - m)) in *. set (B := (y - m) * (y - m)) in *.
+    setoid_replace ((1 + lenQ L) * D) with (D + lenQ L * D) by ring. lra.
+Qed.
+
+(* the variance of a sorted list of even length 2k is at least the squared half gap between
+   its two middle elements *)
+Lemma even_gap m s k : StronglySorted Qle s -> length s = (2 * k)%nat -> (1 <= k)%nat ->
+  nth (k - 1) s 0 <= nth k s 0 /\
+  lenQ s * ((nth k s 0 - nth (k - 1) s 0) / 2 * ((nth k s 0 - nth (k - 1) s 0) / 2)) <= ssd m s.
+Proof.
+  intros Hs Hlen Hk.
+  pose proof (firstn_skipn k s) as Hsplit.
+  set (L := firstn k s) in *. set (U := skipn k s) in *.
+  assert (HlL : length L = k) by (unfold L; rewrite firstn_length; lia).
+  assert (HlU : length U = k) by (unfold U; rewrite skipn_length; lia).
+  assert (Ha : nth (k - 1) s 0 = last L 0).
+  { unfold L. replace k with (S (k - 1)) at 2 by lia. rewrite last_firstn; [reflexivity|lia]. }
+  assert (Hb : nth k s 0 = hd 0 U) by (unfold U; now rewrite hd_skipn).
+  rewrite <- Hsplit in Hs.
+  assert (HLn : L <> []) by (destruct L; [cbn in HlL; lia|discriminate]).
+  assert (HUn : U <> []) by (destruct U; [cbn in HlU; lia|discriminate]).
+  assert (Hab : last L 0 <= hd 0 U).
+  { apply (SS_app_cross L U Hs); [now apply last_in|destruct U; [congruence|now left]]. }
+  rewrite Ha, Hb. split; [exact Hab|].
+  pose proof (pair_ssd m _ _ Hab L U ltac:(lia)
+                (SS_le_last L (SS_app_l _ _ Hs)) (SS_hd_le U (SS_app_r _ _ Hs))) as Hp.
+  rewrite <- Hsplit, ssd_app, lenQ_app.
+  assert (HQ : lenQ U = lenQ L) by (unfold lenQ; now rewrite HlL, HlU). rewrite HQ.
+  setoid_replace ((lenQ L + lenQ L) * ((hd 0 U - last L 0) / 2 * ((hd 0 U - last L 0) / 2)))
+    with ((1 # 2) * (lenQ L * ((hd 0 U - last L 0) * (hd 0 U - last L 0)))) by field.
+  lra.
+Qed.
+
+Lemma gt_sqrt_nonpos x s v2 : 0 <= s -> x <= 0 -> gt_sqrt x s v2 = false.
+Proof.
+  intros Hs Hx. unfold gt_sqrt. apply Qle_bool_iff in Hs. rewrite Hs.
+  apply andb_false_iff. left. now apply Qlt_bool_false.
+Qed.
+Lemma gt_sqrt_small x s v2 : 1 <= s -> 0 <= v2 -> x * x <= v2 -> gt_sqrt x s v2 = false.
+Proof.
+  intros Hs Hv Hx. unfold gt_sqrt. assert (E : Qle_bool 0 s = true) by (apply Qle_bool_iff; lra).
+  rewrite E. apply andb_false_iff. right. apply Qlt_bool_false.
+  assert (1 <= s * s) by nra. nra.
+Qed.
+
+Lemma qmedian_unfold l :
+  qmedian l = if Nat.even (length (qsort l))
+              then (nth (length (qsort l) / 2 - 1) (qsort l) 0 + nth (length (qsort l) / 2) (qsort l) 0) / 2
+              else nth (length (qsort l) / 2) (qsort l) 0.
+Proof. reflexivity. Qed.
+
+Lemma median_keeps_one sl su cur :
+  1 <= sl -> 1 <= su -> cur <> [] -> exists v, In v cur /\ keep CMedian sl su cur v = true.
+Proof.
+  intros Hl Hu Hn.
+  assert (Hlen : (0 < length (qsort cur))%nat).
+  { rewrite qsort_length. destruct cur; [congruence|cbn; lia]. }
+  assert (Hhalf : (length (qsort cur) / 2 < length (qsort cur))%nat) by (apply Nat.div_lt; lia).
+  pose proof (varQ_nonneg cur) as Hv.
+  destruct (Nat.even (length (qsort cur))) eqn:Ev.
+  - (* even length: the lower middle value *)
+    apply Nat.even_spec in Ev. destruct Ev as [k Hk].
+    assert (Hdiv : (length (qsort cur) / 2 = k)%nat).
+    { rewrite Hk, Nat.mul_comm. apply Nat.div_mul. lia. }
+    assert (Hk1 : (1 <= k)%nat) by lia.
+    destruct (even_gap (meanQ cur) (qsort cur) k (qsort_sorted cur) Hk Hk1) as [Hab Hgap].
+    rewrite ssd_qsort in Hgap.
+    assert (HlQ : lenQ (qsort cur) = lenQ cur) by (unfold lenQ; now rewrite qsort_length).
+    rewrite HlQ, <- (varQ_len cur Hn) in Hgap.
+    pose proof (lenQ_pos cur Hn) as Hpos.
+    set (a := nth (k - 1) (qsort cur) 0) in *. set (b := nth k (qsort cur) 0) in *.
+    assert (Hh : (b - a) / 2 * ((b - a) / 2) <= varQ cur).
+    { apply (Qmult_le_l _ _ (lenQ cur)); assumption. }
+    exists a. split.
+    { apply qsort_in. unfold a. apply nth_In. lia. }
+    destruct cur as [|x l]; [congruence|]. cbn [keep cen_of].
+    assert (Hm : qmedian (x :: l) == (a + b) / 2).
+    { rewrite qmedian_unfold. rewrite (proj2 (Nat.even_spec _) (ex_intro _ k Hk)), Hdiv. reflexivity. }
+    rewrite (gt_sqrt_small (qmedian (x :: l) - a) sl); [|exact Hl|exact Hv|].
+    2:{ rewrite Hm. setoid_replace ((a + b) / 2 - a) with ((b - a) / 2) by field. exact Hh. }
+    rewrite (gt_sqrt_nonpos (a - qmedian (x :: l)) su); [reflexivity|lra|].
+    rewrite Hm. setoid_replace (a - (a + b) / 2) with ((1 # 2) * (a - b)) by field. lra.
+  - (* odd length: the median itself *)
+    exists (qmedian cur). rewrite qmedian_unfold, Ev. split.
+    { apply qsort_in, nth_In, Hhalf. }
+    destruct cur as [|x l]; [congruence|]. cbn [keep cen_of]. rewrite qmedian_unfold, Ev.
+    set (m := nth _ _ _).
+    rewrite (gt_sqrt_nonpos (m - m) sl), (gt_sqrt_nonpos (m - m) su); [reflexivity|lra|lra|lra|lra].
+Qed.
+
+Lemma keeps_one cf sl su cur :
+  1 <= sl -> 1 <= su -> cur <> [] -> exists v, In v cur /\ keep cf sl su cur v = true.
+Proof. destruct cf; [apply median_keeps_one|apply mean_keeps_one]. Qed.
+
+Lemma step_nonempty cf sl su cur : 1 <= sl -> 1 <= su -> cur <> [] -> step cf sl su cur <> [].
+Proof.
+  intros Hl Hu Hn. destruct (keeps_one cf sl su cur Hl Hu Hn) as (v & Hv & Hk).
+  intros E. assert (Hin : In v (step cf sl su cur)) by (apply filter_In; now split).
+  rewrite E in Hin. destruct Hin.
+Qed.
+Lemma last_src_nonempty cf sl su f : forall cur,
+  1 <= sl -> 1 <= su -> cur <> [] -> last_src cf sl su f cur <> [].
+Proof.
+  induction f as [|f IH]; intros cur Hl Hu Hn; cbn [last_src]; [exact Hn|].
+  destruct (Nat.eqb _ _); [exact Hn|]. apply IH; auto. now apply step_nonempty.
+Qed.
+
+(* sigma_lower, sigma_upper >= 1: a non-empty sample never becomes empty, in no iteration and
+   not in the final mask *)
+Lemma clip_nonempty_lemma P l :
+  1 <= p_lo P -> 1 <= p_hi P -> l <> [] ->
+  final_src P l <> [] /\ clip P l <> [] /\ existsb (fun k => k) (keep_mask P l) = true.
+Proof.
+  intros Hl Hu Hn.
+  assert (Hs : final_src P l <> []) by (now apply last_src_nonempty).
+  destruct (keeps_one (p_cen P) _ _ _ Hl Hu Hs) as (v & Hv & Hk).
+  assert (Hvl : In v l) by (unfold final_src in Hv; now apply last_src_incl in Hv).
+  split; [exact Hs|]. split.
+  - intros E. assert (Hin : In v (clip P l)) by (apply filter_In; now split).
+    rewrite E in Hin. destruct Hin.
+  - apply existsb_exists. exists true. split; [|reflexivity].
+    unfold keep_mask. apply in_map_iff. exists v. now split.
+Qed.
+
+(* ================================================================== *)
+(* Part 5: the instance for C11                                         *)
+(* ================================================================== *)
+Lemma inject_affine k c (l : list Z) :
+  Forall2 (arel (inject_Z k) (inject_Z c)) (map inject_Z l)
+          (map inject_Z (map (fun v => (k * v + c)%Z) l)).
+Proof.
+  rewrite map_map. apply Forall2_map_same. intros x _. unfold arel.
+  now rewrite inject_Z_plus, inject_Z_mult.
+Qed.
+Lemma inject_Z_pos k : (0 < k)%Z -> 0 < inject_Z k.
+Proof. intros H. change 0 with (inject_Z 0). now rewrite <- Zlt_Qlt. Qed.
+
+(* [clipZ] is [clip] on the injected values *)
+Lemma clipZ_is_clip P l : map inject_Z (clipZ P l) = clip P (map inject_Z l).
+Proof. unfold clipZ, clip. now rewrite filter_map_comm. Qed.
+
+(* exactly the clipping premise of C11's shift_scale_equivariant_partial *)
+Lemma clipZ_affine P (k c : Z) : (0 < k)%Z -> forall l : list Z,
+  clipZ P (map (fun v : Z => (k * v + c)%Z) l) = map (fun v : Z => (k * v + c)%Z) (clipZ P l).
+Proof.
+  intros Hk l. unfold clipZ. rewrite filter_map_comm. f_equal. apply filter_ext. intros z.
+  apply (keep_arel _ _ _ (inject_Z k) (inject_Z c) (inject_Z_pos k Hk)).
+  - apply final_src_arel; [now apply inject_Z_pos|apply inject_affine].
+  - unfold arel. now rewrite inject_Z_plus, inject_Z_mult.
+Qed.
+
+(* ... and the estimators of the correspondence satisfy the estimator premise *)
+Lemma qmedianZ_equivariant k c l : (0 < k)%Z -> l <> [] ->
+  qmedianZ (map (fun v => (k * v + c)%Z) l) == inject_Z k * qmedianZ l + inject_Z c.
+Proof.
+  intros Hk Hn. unfold qmedianZ.
+  apply (qmedian_equivariant _ _ (inject_Z_pos k Hk) _ _ (inject_affine k c l)).
+  destruct l; [congruence|discriminate].
+Qed.
+Lemma est_of_equivariant estk k c l : (0 < k)%Z -> l <> [] ->
+  est_of estk (map (fun v => (k * v + c)%Z) l) == inject_Z k * est_of estk l + inject_Z c.
+Proof.
+  intros Hk Hn. unfold est_of. destruct (estk =? 0)%Z.
+  - now apply qmean_equivariant.
+  - now apply qmedianZ_equivariant.
+Qed.
+
+(* C11's equivariance theorem with [clip := clipZ P]: the clipping premise is gone *)
+Lemma b2d_equivariant_sigma_clip : forall (P : params) (ny nx by0 bx0 : nat),
+  (0 < ny)%nat -> (0 < nx)%nat -> (0 < by0)%nat -> (0 < bx0)%nat ->
+  forall (data : img (option Z)) (mask cov : img bool) (p : Q) (est rms : list Z -> Q)
+         (idw : img (option Q) -> nat -> nat -> Q) (median : list Q -> Q)
+         (fy fx : nat) (fthr : option Q),
+  (0 < fy)%nat -> (0 < fx)%nat ->
+  forall (fill : Q) (do_clip : bool) (interp : img Q -> nat -> nat -> Q) (k c : Z),
+  (0 < k)%Z ->
+  (forall l : list Z,
+     l <> nil -> est (map (fun v : Z => (k * v + c)%Z) l) == inject_Z k * est l + inject_Z c) ->
+  (forall l : list Z, l <> nil -> rms (map (fun v : Z => (k * v + c)%Z) l) == inject_Z k * rms l) ->
+  idw_equivariant idw -> median_equivariant median -> interp_equivariant interp ->
+  (background2d ny nx by0 bx0 data mask cov p est rms (clipZ P) idw median fy fx fthr fill do_clip interp =
+     AllExcluded <->
+   background2d ny nx by0 bx0 (map (map (option_map (fun v : Z => (k * v + c)%Z))) data) mask cov p est
+     rms (clipZ P) idw median fy fx (option_map (fun t : Q => inject_Z k * t + inject_Z c) fthr) fill do_clip
+     interp = AllExcluded) /\
+  (forall (np : img nat) (nm : img bool) (bm rm b r : img Q),
+   background2d ny nx by0 bx0 data mask cov p est rms (clipZ P) idw median fy fx fthr fill do_clip interp =
+     Maps np nm bm rm b r ->
+   exists bm' rm' b' r' : img Q,
+     background2d ny nx by0 bx0 (map (map (option_map (fun v : Z => (k * v + c)%Z))) data) mask cov p
+       est rms (clipZ P) idw median fy fx (option_map (fun t : Q => inject_Z k * t + inject_Z c) fthr) fill
+       do_clip interp = Maps np nm bm' rm' b' r' /\
+     irel (arel (inject_Z k) (inject_Z c)) bm bm' /\
+     irel (arel (inject_Z k) 0) rm rm' /\
+     (forall (y x : nat) (d : Q), (y < ny)%nat -> (x < nx)%nat ->
+        if get2 false cov y x
+        then (get2 d b y x = fill /\ get2 d b' y x = fill) /\ get2 d r y x = fill /\ get2 d r' y x = fill
+        else arel (inject_Z k) (inject_Z c) (get2 d b y x) (get2 d b' y x) /\
+             arel (inject_Z k) 0 (get2 d r y x) (get2 d r' y x))).
+Proof.
+  intros P ny nx by0 bx0 Hny Hnx Hby Hbx data mask cov p est rms idw median fy fx fthr Hfy Hfx
+         fill do_clip interp k c Hk Hest Hrms Hidw Hmed Hint.
+  apply shift_scale_equivariant_partial; try assumption.
+  now apply clipZ_affine.
+Qed.
+
+(* ... additionally with the Mean / Median background estimator of the correspondence: the
+   estimator premise is gone as well *)
+Lemma b2d_equivariant_sigma_clip_est : forall (P : params) (estk : Z) (ny nx by0 bx0 : nat),
+  (0 < ny)%nat -> (0 < nx)%nat -> (0 < by0)%nat -> (0 < bx0)%nat ->
+  forall (data : img (option Z)) (mask cov : img bool) (p : Q) (rms : list Z -> Q)
+         (idw : img (option Q) -> nat -> nat -> Q) (median : list Q -> Q)
+         (fy fx : nat) (fthr : option Q),
+  (0 < fy)%nat -> (0 < fx)%nat ->
+  forall (fill : Q) (do_clip : bool) (interp : img Q -> nat -> nat -> Q) (k c : Z),
+  (0 < k)%Z ->
+  (forall l : list Z, l <> nil -> rms (map (fun v : Z => (k * v + c)%Z) l) == inject_Z k * rms l) ->
+  idw_equivariant idw -> median_equivariant median -> interp_equivariant interp ->
+  (background2d ny nx by0 bx0 data mask cov p (est_of estk) rms (clipZ P) idw median fy fx fthr fill do_clip interp =
+     AllExcluded <->
+   background2d ny nx by0 bx0 (map (map (option_map (fun v : Z => (k * v + c)%Z))) data) mask cov p (est_of estk)
+     rms (clipZ P) idw median fy fx (option_map (fun t : Q => inject_Z k * t + inject_Z c) fthr) fill do_clip
+     interp = AllExcluded) /\
+  (forall (np : img nat) (nm : img bool) (bm rm b r : img Q),
+   background2d ny nx by0 bx0 data mask cov p (est_of estk) rms (clipZ P) idw median fy fx fthr fill do_clip interp =
+     Maps np nm bm rm b r ->
+   exists bm' rm' b' r' : img Q,
+     background2d ny nx by0 bx0 (map (map (option_map (fun v : Z => (k * v + c)%Z))) data) mask cov p
+       (est_of estk) rms (clipZ P) idw median fy fx (option_map (fun t : Q => inject_Z k * t + inject_Z c) fthr) fill
+       do_clip interp = Maps np nm bm' rm' b' r' /\
+     irel (arel (inject_Z k) (inject_Z c)) bm bm' /\
+     irel (arel (inject_Z k) 0) rm rm' /\
+     (forall (y x : nat) (d : Q), (y < ny)%nat -> (x < nx)%nat ->
+        if get2 false cov y x
+        then (get2 d b y x = fill /\ get2 d b' y x = fill) /\ get2 d r y x = fill /\ get2 d r' y x = fill
+        else arel (inject_Z k) (inject_Z c) (get2 d b y x) (get2 d b' y x) /\
+             arel (inject_Z k) 0 (get2 d r y x) (get2 d r' y x))).
+Proof.
+  intros P estk ny nx by0 bx0 Hny Hnx Hby Hbx data mask cov p rms idw median fy fx fthr Hfy Hfx
+         fill do_clip interp k c Hk Hrms Hidw Hmed Hint.
+  apply b2d_equivariant_sigma_clip; try assumption.
+  intros l Hl. now apply est_of_equivariant.
+Qed.
